@@ -71,8 +71,9 @@ def _underused(T, k, m):
     return _punder(T, m) and not _pover(T, m) and (_under(T, m) or not _over_(T, m))
 
 
-def _clauses(pool, numNodes, T, rnd, sN, sP, calls, k, p):
-    """the clauses of AllowedP for Evict(p) under pool k (labels only: mirrors WhyP of Rebalance.tla)"""
+def _clauses(pool, numNodes, T, rnd, sN, sP, calls, k, p, shared=()):
+    """the clauses of AllowedP for Evict(p) under pool k (labels only: mirrors WhyP of Rebalance.tla); shared = the nodes whose
+    streak clause is switched off (second pass for the shared-detector finding, StreakFor of RebalanceTrace.tla)"""
     pods = rnd.get("pods", {}) or {}
     if p not in pods:
         return {"unknownPod": p}
@@ -87,7 +88,7 @@ def _clauses(pool, numNodes, T, rnd, sN, sP, calls, k, p):
     pest = {r: T["puse"][n][r] - sum(dec(c["pod"])[r] for c in frm if pods[c["pod"]]["prod"]) for r in RES}
     src = kd != "none" and (kd != "prod" or pods[p]["prod"]) and \
         (_overv(est, T["high"][n]) if kd == "node" else _overv(pest, T["phigh"][n]))
-    streak = (sP if kd == "prod" else sN).get(n, 0)
+    streak = 9 if n in shared else (sP if kd == "prod" else sN).get(n, 0)
     an = pool["anomaly"] < 2 or streak >= pool["anomaly"]
     kk = "node" if kd == "none" else kd
     low = any(_underused(T, kd, m) for m in T["use"] if m != n)
@@ -110,8 +111,9 @@ def _failed(w):
     return [c for c in _CL if w.get(c) is False]
 
 
-def _mirror(fl):
-    """recompute what the trace spec saw for the rejected evict event: {cursor, pools: [{pool, past, selNil, again, why}]}"""
+def _mirror(fl, tol=False):
+    """recompute what the trace spec saw for the rejected evict event: {cursor, pools: [{pool, past, selNil, again, why}]};
+    tol: as the second pass sees it (no streak clause for nodes that several pools select)"""
     seg, i = fl["segment"], fl["fail_index"]
     cfg = _legacy(seg[0]["cfg"])
     pools, nn = cfg["pools"], cfg["numNodes"]
@@ -128,8 +130,11 @@ def _mirror(fl):
                     sP[k][n] = min(sP[k].get(n, 0) + 1, 9) if _pover(T, n) else 0
         elif x.get("op") == "evict":
             ws = []
+            shared = set()
+            if tol:
+                shared = {n for n in seg[0]["names"] if sum(1 for T in tabs if n in T["use"]) > 1}
             for k in range(1, len(pools) + 1):
-                w = _clauses(pools[k - 1], nn, tabs[k - 1], rnd, sN[k - 1], sP[k - 1], calls, k, x["pod"])
+                w = _clauses(pools[k - 1], nn, tabs[k - 1], rnd, sN[k - 1], sP[k - 1], calls, k, x["pod"], shared)
                 pods = rnd.get("pods", {}) or {}
                 again = ""      # as which kind of source an earlier pool of this round already relieved the node
                 if x["pod"] in pods:
@@ -183,6 +188,14 @@ def sig(fl):
         if not (isinstance(exp, dict) and "pools" in exp):
             exp = _mirror(fl)       # only the first few rejections are explained by TLC: recompute the same diagnostics
         kind = _label(exp, fl["segment"]) if exp else "unexplained"
+        if exp and len(exp["pools"]) > 1 and not kind.startswith("failed=an streak="):
+            # several pools: a call the shared anomaly detector let through too early is attributed to ANOTHER pool by the
+            # greedy attribution (and shifts the cursor for the calls after it). If the call is in order once the streak clause
+            # is off for the nodes several pools select, it is a manifestation of that recorded finding; the second pass
+            # (VERIF_TOLERATE_C18_SHARED) then has TLC decide whether anything else is wrong in the segment.
+            ext = _mirror(fl, tol=True)
+            if ext and any(not w["past"] and w["why"].get("measured") and not _failed(w["why"]) for w in ext["pools"]):
+                kind = "failed=an(by attribution) shared"
     except Exception as ex:     # a label must never break the run
         kind = "unexplained (%s)" % type(ex).__name__
     return "op=%s %s" % (e.get("op"), kind)
